@@ -105,7 +105,7 @@ func newC03net(cfg c03cfg) *c03net {
 	if cfg.Set > 0 {
 		net.set = int64(cfg.Set)
 	}
-	net.spec = kpx.NodeSpec{Flavour: cfg.Flavour, CfgIndex: net.set, Members: c03members, Threshold: c03T, Activation: 0, Eon: 5, Keys: net.keys, MaxKeys: 16, State: kpx.Success}
+	net.spec = kpx.NodeSpec{Flavour: cfg.Flavour, CfgIndex: net.set, Members: c03members, Threshold: c03T, Activation: 0, Eon: 5, Keys: net.keys, MaxKeys: uint64(cfg.NumIDs), State: kpx.Success} // messages are exactly as large as the configured maximum
 	switch cfg.Flavour {
 	case "gnosis":
 		// identities are decided by the real triggerDecryption from the queue
@@ -125,7 +125,7 @@ func newC03net(cfg c03cfg) *c03net {
 		st.AddKeyperSet(uint64(net.set), &obskeyper.KeyperSet{KeyperConfigIndex: net.set, Keypers: shdb.EncodeAddresses(kpx.Addrs(c03members...)), Threshold: c03T})
 		st.AddEonKey(uint64(net.set), net.keys.PublicKey)
 		net.access = kpx.NewCapture()
-		net.access.AddMessageHandler(gnosisaccessnode.NewDecryptionKeysHandler(&gnosisaccessnode.Config{InstanceID: kpx.InstanceID, MaxNumKeysPerMessage: 16}, st))
+		net.access.AddMessageHandler(gnosisaccessnode.NewDecryptionKeysHandler(&gnosisaccessnode.Config{InstanceID: kpx.InstanceID, MaxNumKeysPerMessage: uint64(cfg.NumIDs)}, st))
 	}
 	return net
 }
